@@ -36,7 +36,7 @@ for i in ids:
             lines = [l for l in p.stdout.split("\n") if l.startswith("VIOLATION") or l.startswith("OK ")]
             detail = [l.strip() for l in p.stdout.split("\n") if l.startswith("   ")][:6]
             res[pid] = {"exit": p.returncode, "lines": lines, "detail": detail, "wall_s": round(time.time() - t0)}
-            print(i, pid, "exit", p.returncode, lines[:2], detail[:2])
+            print(i, pid, "exit", p.returncode, lines[:2], detail[:2], flush=True)
     finally:
         if inplace:
             subprocess.run(["git", "-C", REPO, "checkout", "--", "."], check=True)
